@@ -55,6 +55,8 @@ CATEGORICALS = ["cat[str]", "cat[str,unsorted,unused]", "cat[str,ordered]", "cat
                 "cat[str,unsorted]"]
 DTYPES = (["bool"] + NUMPY_INTS + ["float32", "float64"] + TEXT + ["bytes", "json"] + DATETIMES + TIMEDELTAS
           + CATEGORICALS + NULLABLE_INTS + ["boolean"])
+# categoricals whose CATEGORIES are booleans (not part of DTYPES: the modules that want them ask for them)
+BOOL_CATEGORICALS = ["cat[bool]", "cat[bool,unsorted]", "cat[bool,ordered]", "cat[bool,one]"]
 # dtypes that also get the large row counts in the quick tier
 BIG_DTYPES = ["bool", "int64", "float64", "str", "datetime64[ns]", "cat[str,unsorted,unused]", "Int64", "boolean"]
 
@@ -184,6 +186,8 @@ def values(dtype, n):
         elif label == "int":
             labels = [10, 20, 30, 40, -5] if ncat == 5 else list(range(1000, 1000 + ncat))
             labels = sorted(labels)
+        elif label == "bool":          # categories ARE booleans: a BOOLEAN dictionary page with <= 2 entries
+            labels = [True] if "one" in flags else [False, True]       # (flag 'unused' is not available here)
         else:
             labels = [-1.5, 0.0, 0.25, 2.0, 1e10]
         labels = sorted(labels)
